@@ -101,6 +101,10 @@ def safe_eval(e: ast.AST, env: dict):
         return safe_eval(env['__sa__'][e.id], env)
     if isinstance(e, ast.Call) and call_name(e) == 'len' and len(e.args) == 1 and '__payload__' in env and unparse(e.args[0]) in env['__payload__']:
         return env['__len__']
+    if isinstance(e, ast.Name) and '__module__' in env:
+        d = const_value(None, env['__module__'], e.id)        # module-level constant (e.g. a precomputed rotation table)
+        if d is not None:
+            return safe_eval(d, {k: v for k, v in env.items() if k.startswith('__') or k == 'KEY_SIZE'})
     if isinstance(e, ast.UnaryOp) and isinstance(e.op, ast.USub):
         return -safe_eval(e.operand, env)
     if isinstance(e, ast.BinOp):
@@ -641,7 +645,7 @@ def run(eng: Engine, ck: Check):
     rng = loops[0].iter
     bad = []
     for msg_len in list(range(1, 140)) + [255, 256, 257, 1000]:
-        env = {'KEY_SIZE': ks, '__sa__': sa_dec, '__len__': msg_len, '__payload__': payload_names}
+        env = {'KEY_SIZE': ks, '__sa__': sa_dec, '__len__': msg_len, '__payload__': payload_names, '__module__': od.module}
         table = list(safe_eval(rng, env))
         blocks = math.ceil(msg_len / ks)
         # protocol: block j (0-based) is XOR-ed with the key rotated right (j+1)*31 mod 32 bits
